@@ -99,6 +99,7 @@ def generate(rng, tier):
     add(reglib.gen_conflict_history, 250 * k, "renamed")
     add(reglib.gen_registration_history, 80 * k, "reg")
     add(reglib.gen_two_daemon_history, 40 * k, "two")
+    add(reglib.gen_shared_host_history, 60 * k, "sharedhost")
     add(reglib.gen_iface_toggle_history, 120 * k, "toggle")
     add(reglib.gen_goodbye_repeat_history, 160 * k, "repeat")
     # model-free: names with non-ASCII cased letters, judged on the trace (reglib.project_na)
